@@ -46,6 +46,10 @@ structure Facts where
   startGuarded : Bool    -- the asynchronously started listening stream is refused once close() ran
   deriving DecidableEq, Repr
 
+/-- Every fact present (the good corner of the family; witnesses switch single facts off). -/
+def Facts.allGood : Facts :=
+  ⟨true, true, true, true, true, true, true, true, true, true, true, true, true⟩
+
 /-- Run-time configuration of a scenario. -/
 structure Cfg where
   t : Transport
@@ -229,6 +233,28 @@ def quiescent (f : Facts) (cfg : Cfg) (s : St) : Prop :=
 def ledgerZero (s : St) : Prop :=
   (∀ c, (s.calls c).body = false) ∧ s.reader = false ∧ s.child = false ∧ s.watcher = false ∧ s.closeWaiter = false ∧
   s.stream = false
+
+/-! ### What ends a call (the property's list) -/
+
+/-- The events after which the property demands that a pending call returns. -/
+inductive Cause | ctx | conn | timeout | streamEnd | procExit
+  deriving DecidableEq, Repr
+
+/-- Which causes concern which transport: the caller's context everywhere; the call's own HTTP exchange on the HTTP
+    transports; the transport timer and the death of the child on stdio; the end of the event stream on legacy SSE. -/
+def applicable (t : Transport) : Cause → Bool
+  | .ctx => true
+  | .conn => t.http || t = .sse
+  | .timeout => t = .stdio
+  | .streamEnd => t = .sse
+  | .procExit => t = .stdio
+
+def happened (s : St) (c : Nat) : Cause → Bool
+  | .ctx => (s.calls c).ctxDone
+  | .conn => (s.calls c).connErr
+  | .timeout => (s.calls c).timedOut
+  | .streamEnd => s.streamDown
+  | .procExit => !s.child
 
 /-! ### Frame rules of the readers (what counts as a complete answer) -/
 
